@@ -128,10 +128,9 @@ func (r *applyRule) OnInstr(e *Engine, st *State, fc *FrameCtx, in ssa.Instructi
 				b[1]++
 			}
 			b[2] = 'n'
-			if t2, f2, base, ok := fieldLoad(x.Val); ok && t2 == "StoredEvent" && f2 == "Offset" {
-				if strings.HasPrefix(e.CanonS(fc, base), "param:"+fnName(r.S.apply)+".") {
-					b[2] = 'y'
-				}
+			// resolved through helper parameters and deferred-call arguments
+			if cv := e.CanonS(fc, x.Val); cv == "(param:"+fnName(r.S.apply)+"."+r.S.apply.Params[1].Name()+").Offset" {
+				b[2] = 'y'
 			}
 			st.Note(in.Pos(), "lastOffset written")
 		}
@@ -139,6 +138,9 @@ func (r *applyRule) OnInstr(e *Engine, st *State, fc *FrameCtx, in ssa.Instructi
 			if b[0] < '2' {
 				b[0]++
 			}
+		}
+		if al, ok := x.Addr.(*ssa.Alloc); ok && fc.fn == r.S.apply && typeName(al.Type()) == "error" {
+			b[4] = r.classify(e, st, fc, x.Val)
 		}
 	case *ssa.MapUpdate:
 		if tn, fld, _, ok := fieldLoad(x.Map); ok && tn == "Materializer" && fld == "collections" {
@@ -149,27 +151,31 @@ func (r *applyRule) OnInstr(e *Engine, st *State, fc *FrameCtx, in ssa.Instructi
 	case *ssa.Return:
 		if fc.fn == r.S.apply && len(x.Results) == 1 {
 			v := x.Results[0]
-			switch {
-			case isNilConst(v):
-				b[4] = 'n'
-			case e.neverNil(fc, v, 0):
-				b[4] = 'e'
-			default:
-				// an error value returned by a callee and tested non-nil on this path
-				k := nilKey(e.CanonS(fc, v))
-				if val, known := st.Pred(k); known {
-					if val {
-						b[4] = 'n'
-					} else {
-						b[4] = 'e'
-					}
-				} else {
-					b[4] = '?'
+			if ld, ok := v.(*ssa.UnOp); ok && ld.Op == token.MUL {
+				if al, ok := ld.X.(*ssa.Alloc); ok && typeName(al.Type()) == "error" {
+					break // result cell: the class of the last store stands
 				}
 			}
+			b[4] = r.classify(e, st, fc, v)
 		}
 	}
 	return false
+}
+
+func (r *applyRule) classify(e *Engine, st *State, fc *FrameCtx, v ssa.Value) byte {
+	switch {
+	case isNilConst(v):
+		return 'n'
+	case e.neverNil(fc, v, 0):
+		return 'e'
+	}
+	if val, known := st.Pred(nilKey(e.CanonS(fc, v))); known {
+		if val {
+			return 'n'
+		}
+		return 'e'
+	}
+	return '?'
 }
 
 func isNilConst(v ssa.Value) bool {
@@ -581,7 +587,7 @@ func checkFreshDecodeTargets(c *Ctx, p *Prog, S *stateRoles, rule string) {
 			}
 		}
 	}
-	c.Floor(rule, "decode sites in the apply call tree", n, 4)
+	c.Floor(rule, "decode sites in the apply call tree", n, 3)
 }
 
 // checkNoLastOffsetRead (C18.R6).
